@@ -2069,7 +2069,6 @@ class IndexedStringField(HDF5Field):
     def __init__(self, session, group, dataframe, write_enabled=False):
         super().__init__(session, group, dataframe, write_enabled=write_enabled)
         self._session = session
-        self._dataframe = None
         self._data_wrapper = None
         self._index_wrapper = None
         self._value_wrapper = None
